@@ -641,6 +641,7 @@ func (ls *LanceroSource) StartRun() error {
 func (ls *LanceroSource) launchLanceroReader() {
 	ls.buffersChan = make(chan BuffersChanType, 100)
 	ls.readPeriod = 50 * time.Millisecond
+	ls.readPeriod = verifDuration("lancero.readPeriod", ls.readPeriod)
 	go func() {
 		ticker := time.NewTicker(ls.readPeriod)
 		lastSuccesfulRead := time.Now()
@@ -807,6 +808,7 @@ func (ls *LanceroSource) getNextBlock() chan *dataBlock {
 					return
 				}
 				// ls.buffersChan contained valid data, so act on it.
+				verifPoint("lancero.block.assemble")
 				block := ls.distributeData(buffersMsg)
 				ls.dataBlockCount++ // set to 0 in SampleCard
 				ls.nextBlock <- block
